@@ -412,7 +412,13 @@ def verify_function(w, key):
             res.unsupported = f"{u}"
             res.obligations.extend(ctx.obligations)
             break
-        except symex.PathPruned:
+        except symex.PathPruned as pp:
+            # a path that ends at the bottom of a loop body (invariant re-established) is a
+            # complete path: its obligations count; an infeasible path has none worth keeping
+            from .loops import LoopBodyEnd
+            if isinstance(pp, LoopBodyEnd):
+                res.paths += 1
+                res.obligations.extend(ctx.obligations)
             continue
         res.paths += 1
         res.obligations.extend(ctx.obligations)
@@ -446,15 +452,17 @@ def run_one_path(ex, c, fnode, is_method, res):
     for p, s in c.get("closure", {}).items():
         env[p] = sym_for(ex, p, s) if isinstance(s, str) else ex.lift_const(s["const"])
         ex.closure_env[p] = env[p]
-    for name, text in c.get("ghost", {}).items():
-        env[name] = eval_spec_expr(ex, text, env)
     old_self = snapshot(self_obj)
     bound = {p: env[p] for p in params}
     bound.update({p: env[p] for p in c.get("closure", {})})
-    bound.update({p: env[p] for p in c.get("ghost", {})})
     cenv = contract_env(ex, c, bound, self_obj, old_self)
     for r in c.get("requires", []):
         ex.assume(ex.to_bool(eval_spec_expr(ex, r, cenv)))
+    # ghost definitions (may rely on the requires clause; requires cannot mention ghosts)
+    for name, text in c.get("ghost", {}).items():
+        env[name] = eval_spec_expr(ex, text, dict(cenv, **env))
+    bound.update({p: env[p] for p in c.get("ghost", {})})
+    cenv = contract_env(ex, c, bound, self_obj, old_self)
     for r in c.get("lemma_instances", []):
         ex.assume(ex.to_bool(eval_spec_expr(ex, r, cenv)))
     if not ex.feasible(z3.BoolVal(True)):
